@@ -87,6 +87,7 @@ type prepOpts struct {
 	instrumented bool
 	race         bool
 	name         string
+	edit         func(dir string) error // selftest only: source edit applied to the scratch copy
 }
 
 func copyTree(dst string) {
@@ -101,6 +102,11 @@ func copyTree(dst string) {
 func prepare(o prepOpts) *build {
 	b := &build{dir: filepath.Join(scratch, o.name)}
 	copyTree(b.dir)
+	if o.edit != nil {
+		if err := o.edit(b.dir); err != nil {
+			return nil
+		}
+	}
 	// runtime package
 	if err := os.MkdirAll(filepath.Join(b.dir, "verifsim"), 0o755); err != nil {
 		die(2, "%v", err)
@@ -270,6 +276,19 @@ func readJSONFile(path string, v interface{}) error {
 		return err
 	}
 	return json.Unmarshal(b, v)
+}
+
+// readJSONGeneric decodes into generic maps keeping every number exactly as
+// written (json.Number): replay files carry 64-bit seeds and permutation
+// arguments that float64 would round.
+func readJSONGeneric(path string, v interface{}) error {
+	b, err := os.ReadFile(path)
+	if err != nil {
+		return err
+	}
+	d := json.NewDecoder(bytes.NewReader(b))
+	d.UseNumber()
+	return d.Decode(v)
 }
 
 func writeJSONFile(path string, v interface{}) {
